@@ -20,6 +20,7 @@ import (
 	"fmt"
 	"hash/crc32"
 	"math"
+	"math/rand"
 	realos "os"
 	"path/filepath"
 	"runtime"
@@ -73,6 +74,7 @@ type Fault struct {
 	Block int    `json:"block"`
 	InLog bool   `json:"inlog"`
 	Size  int    `json:"size"` // truncate: new size
+	Pos   []int  `json:"pos,omitempty"` // flip: byte*8+bit positions; splice: src, len, dst
 	Feat  string `json:"feat"` // layout feature of the table (for distinct counting)
 }
 
@@ -350,10 +352,109 @@ func planFaults(ti int, data []byte) []Fault {
 	return out
 }
 
+// randomFaults: seeded damage that is NOT derived from the format: bit flips (1-3 bits anywhere, also inside the
+// inflated body of log blocks) and splices (a range overwritten by another range, deleted, or inserted a second time);
+// the footer checksum is repaired afterwards when the file is still long enough.
+func randomFaults(ti int, data []byte, n int, rng *rand.Rand) []Fault {
+	f, err := fmtdec.ParseFields(data)
+	if err != nil || len(data) < 100 {
+		return nil
+	}
+	feat := feature(f)
+	var out []Fault
+	var logBlocks []int
+	for bi, b := range f.Blocks {
+		if b.Type == 'g' {
+			logBlocks = append(logBlocks, bi)
+		}
+	}
+	for i := 0; i < n; i++ {
+		k := 1 + rng.Intn(3)
+		pos := []int{}
+		for j := 0; j < k; j++ {
+			pos = append(pos, rng.Intn(len(data))*8+rng.Intn(8))
+		}
+		out = append(out, Fault{Table: ti, Field: "bytes", Class: fmt.Sprintf("bitflip%d", k), Kind: "flip", Pos: pos, Feat: feat})
+		if len(logBlocks) > 0 && i%3 == 0 {
+			bi := logBlocks[rng.Intn(len(logBlocks))]
+			out = append(out, Fault{Table: ti, Field: "log_block.inflated_bytes", Class: fmt.Sprintf("bitflip%d", k), Kind: "flip", InLog: true, Block: bi,
+				Pos: []int{rng.Intn(1 << 20), rng.Intn(1 << 20), rng.Intn(1 << 20)}[:k], Feat: feat})
+		}
+	}
+	for i := 0; i < n/2; i++ {
+		l := 1 + rng.Intn(64)
+		if rng.Intn(4) == 0 {
+			l = 1 + rng.Intn(len(data)/2)
+		}
+		src, dst := rng.Intn(len(data)-l+1), rng.Intn(len(data)-l+1)
+		cls := []string{"overwrite", "delete", "insert"}[rng.Intn(3)]
+		out = append(out, Fault{Table: ti, Field: "bytes", Class: "splice_" + cls, Kind: "splice", Pos: []int{src, l, dst}, Feat: feat})
+	}
+	return out
+}
+
 // apply builds the damaged file.
 func apply(data []byte, ft Fault) []byte {
 	if ft.Kind == "truncate" {
 		return append([]byte{}, data[:ft.Size]...)
+	}
+	if ft.Kind == "flip" && !ft.InLog {
+		out := append([]byte{}, data...)
+		for _, p := range ft.Pos {
+			if p/8 < len(out) {
+				out[p/8] ^= 1 << uint(p%8)
+			}
+		}
+		fixFooter(out, false)
+		return out
+	}
+	if ft.Kind == "flip" && ft.InLog {
+		f, err := fmtdec.Parse(data)
+		if err != nil || ft.Block >= len(f.Blocks) {
+			return data
+		}
+		b := f.Blocks[ft.Block]
+		hoff := 0
+		if b.Off == 0 {
+			hoff = f.HeaderSize
+		}
+		start := int(b.Off)
+		zr, err := zlib.NewReader(bytes.NewReader(data[start+hoff+4 : start+b.RawLen]))
+		if err != nil {
+			return data
+		}
+		var body bytes.Buffer
+		if _, err := body.ReadFrom(zr); err != nil || body.Len() == 0 {
+			return data
+		}
+		bb := body.Bytes()
+		for _, p := range ft.Pos {
+			bb[(p/8)%len(bb)] ^= 1 << uint(p%8)
+		}
+		var z bytes.Buffer
+		z.Write(data[start : start+hoff+4])
+		zw, _ := zlib.NewWriterLevel(&z, 9)
+		zw.Write(bb)
+		zw.Close()
+		out := append([]byte{}, data[:start]...)
+		out = append(out, z.Bytes()...)
+		out = append(out, data[start+b.RawLen:]...)
+		return out
+	}
+	if ft.Kind == "splice" {
+		src, l, dst := ft.Pos[0], ft.Pos[1], ft.Pos[2]
+		var out []byte
+		switch ft.Class {
+		case "splice_overwrite":
+			out = append([]byte{}, data...)
+			copy(out[dst:dst+l], data[src:src+l])
+		case "splice_delete":
+			out = append(append([]byte{}, data[:src]...), data[src+l:]...)
+		default:
+			out = append(append(append([]byte{}, data[:dst]...), data[src:src+l]...), data[dst:]...)
+		}
+		fixFooter(out, false)
+		return out
 	}
 	if ft.Kind == "empty" {
 		f, err := fmtdec.Parse(data)
@@ -673,6 +774,13 @@ func main() {
 			plan.Keys = append(plan.Keys, keys)
 			plan.Oids = append(plan.Oids, oids)
 			plan.Faults = append(plan.Faults, planFaults(ti, b)...)
+			if len(realos.Args) > 5 {
+				var nr int
+				var seed int64
+				fmt.Sscan(realos.Args[4], &nr)
+				fmt.Sscan(realos.Args[5], &seed)
+				plan.Faults = append(plan.Faults, randomFaults(ti, b, nr, rand.New(rand.NewSource(seed*1000+int64(ti))))...)
+			}
 		}
 		out, _ := json.Marshal(plan)
 		realos.WriteFile(filepath.Join(dir, "plan.json"), out, 0644)
